@@ -1,4 +1,4 @@
 SPECIFICATION TraceSpec
-CONSTANTS ArrBE = FALSE Lenient = FALSE Alphabet = {} MaxLen = 0
+CONSTANTS ArrBE = TRUE Lenient = FALSE Alphabet = {} MaxLen = 0
 CONSTANT Formats <- TrFormats
 INVARIANT TraceAccepted
